@@ -183,4 +183,285 @@ theorem plan_complete {c : Ctx} {a p b len : Nat} {hashed : Nat → Bool} (g : N
       omega
     exact growStage_complete g hpyr l4 hg hdbfs hsum' (by omega)
 
+/-! ## global part -/
+
+/-- a Kekulé form of the component as an order for every (undirected) skeleton bond -/
+structure ValidForm (c : Ctx) (db0 : List Nat) (f : Nat × Nat → Nat) : Prop where
+  ord : ∀ v w, w ∈ nb c v → f (ukey v w) = 1 ∨ f (ukey v w) = 2
+  deg : ∀ v, nb c v ≠ [] → (nb c v).countP (fun w => f (ukey v w) == 2) = if db0.contains v = true then 0 else 1
+
+/-- the entries carry the orders of the form -/
+def Agr (f : Nat × Nat → Nat) (l : List PEntry) : Prop := ∀ x ∈ l, x.2.2 = f (key x)
+
+/-- stack discipline: only the entry on top of a level can carry a double bond or a depth tag (closing entries excepted) -/
+def LInv (c : Ctx) (level : Level) : Prop := ∀ e ∈ level.dropLast, (e.bond = 1 ∧ e.tag = none) ∨ e.atom = c.start
+
+def Good (f : Nat × Nat → Nat) (r : Res) (limit : Nat) : Prop :=
+  r.crash.isSome = true ∨ limit ≤ r.found.length ∨ ∃ y ∈ r.found, Agr f y
+
+theorem seqBranches_good {β : Type} (f : Nat × Nat → Nat) (g : β → Nat → Res) :
+    ∀ (bs : List β) (limit : Nat) (b : β), b ∈ bs → (∀ lim, Good f (g b lim) lim) →
+      Good f (seqBranches bs g limit) limit := by
+  intro bs
+  induction bs with
+  | nil => intro _ b hb; simp at hb
+  | cons b0 rest ih =>
+    intro limit b hb hg
+    simp only [seqBranches]
+    split
+    · rename_i hc
+      simp only [Bool.or_eq_true, decide_eq_true_eq] at hc
+      rcases hc with hc | hc
+      · exact Or.inl hc
+      · exact Or.inr (Or.inl hc)
+    · rename_i hc
+      simp only [Bool.or_eq_true, decide_eq_true_eq, not_or, Nat.not_le] at hc
+      rcases List.mem_cons.1 hb with rfl | hb'
+      · rcases hg limit with h | h | ⟨y, hy, hA⟩
+        · exact absurd h hc.1
+        · omega
+        · exact Or.inr (Or.inr ⟨y, List.mem_append_left _ hy, hA⟩)
+      · rcases ih (limit - (g b0 limit).found.length) b hb' hg with h | h | ⟨y, hy, hA⟩
+        · exact Or.inl h
+        · refine Or.inr (Or.inl ?_)
+          simp only [List.length_append]
+          omega
+        · exact Or.inr (Or.inr ⟨y, List.mem_append_right _ hy, hA⟩)
+
+theorem countP_ge_two {l : List Nat} {P : Nat → Bool} {x y : Nat} (hx : x ∈ l) (hy : y ∈ l) (hxy : x ≠ y)
+    (h1 : P x = true) (h2 : P y = true) : 2 ≤ l.countP P := by
+  have hsub : [x, y].Subperm l := by
+    apply List.subperm_of_subset
+    · simp [hxy]
+    · intro z hz
+      simp only [List.mem_cons, List.not_mem_nil, or_false] at hz
+      rcases hz with rfl | rfl <;> assumption
+  have := hsub.countP_le P
+  have h3 : List.countP P [x, y] = 2 := by simp [List.countP_cons, h1, h2]
+  omega
+
+/-- the neighbours of an atom split into the previous atom, the start atom, closures and forward neighbours -/
+theorem partition_countP (c : Ctx) (p : Nat) (hashed : Nat → Bool) (Q : Nat → Bool) (nbrs : List Nat) :
+    nbrs.countP Q = (forStackOf c p hashed nbrs).countP Q + (closuresOf c p hashed nbrs).countP Q +
+      nbrs.countP (fun x => Q x && x == p) + nbrs.countP (fun x => Q x && (x != p && x == c.start)) := by
+  induction nbrs with
+  | nil => simp [forStackOf, closuresOf]
+  | cons x xs ih =>
+    simp only [forStackOf, closuresOf, List.filter_cons, List.countP_cons] at ih ⊢
+    by_cases h1 : x = p
+    · subst h1; simp; cases Q x <;> simp <;> omega
+    · by_cases h2 : x = c.start
+      · subst h2; simp [h1]; cases Q c.start <;> simp <;> omega
+      · cases h3 : hashed x <;> cases h4 : Q x <;> simp [h1, h2, h3, h4] <;> omega
+
+theorem countP_at {l : List Nat} (hnd : l.Nodup) (Q R : Nat → Bool) (t : Nat) (hR : ∀ x, R x = true → x = t) :
+    l.countP (fun x => Q x && R x) = if t ∈ l ∧ Q t = true ∧ R t = true then 1 else 0 := by
+  induction l with
+  | nil => simp
+  | cons y ys ih =>
+    simp only [List.nodup_cons] at hnd
+    rw [List.countP_cons, ih hnd.2]
+    by_cases hy : y = t
+    · subst hy
+      have : ¬ (y ∈ ys ∧ Q y = true ∧ R y = true) := fun h => hnd.1 h.1
+      simp only [this, if_false, List.mem_cons, true_or, true_and]
+      cases Q y <;> cases R y <;> simp
+    · have hRy : R y = false := by
+        cases h : R y
+        · rfl
+        · exact absurd (hR y h) hy
+      have hy' : ¬ t = y := fun h => hy h.symm
+      simp [hRy, hy']
+
+section complete
+variable {c : Ctx} {init : PEntry} {level' : Level} {e : Entry} {path : Path} {ins0 : Option Entry}
+  {clos : List Nat} {brs : List (List Entry)} {base : Level} {f : Nat × Nat → Nat}
+
+/-- a closure of the atom being visited is joined to it by a single bond in every form the state agrees with -/
+theorem closure_single (D : Dom c) (I : Inv c init (level' ++ [e]) path) (hi : init.2.1 = c.start)
+    (hV : hashedIn path e.atom = false) (hs : e.atom ≠ c.start)
+    (hL : ∀ e' ∈ level', (e'.bond = 1 ∧ e'.tag = none) ∨ e'.atom = c.start)
+    (hA : Agr f (M (level' ++ [e]) path)) {x : Nat}
+    (hx : x ∈ closuresOf c e.prev (hashedIn (path ++ [pe e])) (nb c e.atom)) : f (ukey x e.atom) = 1 := by
+  obtain ⟨x1, x2, x3, x4⟩ := mem_closuresOf hx
+  have hxa : x ≠ e.atom := fun h => D.noself _ (h ▸ x1)
+  have hVx : hashedIn path x = true := by
+    rw [hashedIn_append, Bool.or_eq_true] at x4
+    rcases x4 with h | h
+    · exact h
+    · simp only [hashedIn, List.any_cons, List.any_nil, Bool.or_false, pe, beq_iff_eq] at h
+      exact absurd h.symm hxa
+  obtain ⟨y, hy, hk⟩ := List.mem_map.1 (I.cover x hVx x3 e.atom (D.sym _ _ x1))
+  have hy2 : y.2.1 ≠ e.atom := no_prev_unvisited I hi hV hs y hy
+  have hy1 : y.1 = e.atom ∧ y.2.1 = x := by
+    rcases ukey_eq hk with ⟨-, h2⟩ | ⟨h1, h2⟩
+    · exact absurd h2 hy2
+    · exact ⟨h1, h2⟩
+  rcases mem_M hy with h | ⟨e', he', rfl⟩
+  · have := hashedIn_mem h
+    rw [hy1.1, hV] at this; exact Bool.noConfusion this
+  · rcases List.mem_append.1 he' with h | h
+    · rcases hL e' h with ⟨hb, -⟩ | hst
+      · have := hA (pe e') (mem_M_level he')
+        have hk' : key (pe e') = ukey x e.atom := hk
+        rw [hk'] at this
+        rw [← this]; exact hb
+      · exact absurd (hy1.1 ▸ hst) hs
+    · simp only [List.mem_singleton] at h
+      subst h
+      exact absurd hy1.2.symm x2
+
+/-- … and the closing bond to the start atom carries the closing order -/
+theorem start_edge (D : Dom c) {db0 : List Nat} (SO : StartOK c db0 init) (VF : ValidForm c db0 f)
+    (I : Inv c init (level' ++ [e]) path) (hV : hashedIn path e.atom = false)
+    (hA : Agr f (M (level' ++ [e]) path)) (hst : c.start ∈ nb c e.atom) (hsp : c.start ≠ e.prev) :
+    f (ukey c.start e.atom) = loopBond c := by
+  have ha : e.atom ∈ nb c c.start := D.sym _ _ hst
+  have hne : nb c c.start ≠ [] := List.ne_nil_of_mem ha
+  have hdeg := VF.deg c.start hne
+  have hord := VF.ord c.start e.atom ha
+  have hinitM := I.ini
+  have hie := I.edges init hinitM
+  have hf0 : init.1 ∈ nb c c.start := SO.prev ▸ hie.1
+  have hfi : f (ukey c.start init.1) = init.2.2 := by
+    have := hA init hinitM
+    rw [this]; simp [key, SO.prev, ukey_comm]
+  -- the atom being visited is not the first neighbour
+  have hne0 : e.atom ≠ init.1 := by
+    intro h
+    rcases mem_M hinitM with hp | ⟨e', he', he'i⟩
+    · have := hashedIn_mem hp
+      rw [← h, hV] at this; exact Bool.noConfusion this
+    · have hprev : e'.prev = c.start := by
+        have : (pe e').2.1 = init.2.1 := by rw [he'i]
+        exact this.trans SO.prev
+      rcases (I.lvl e' he').2.1 with ⟨-, h2⟩ | h2
+      · exact h2 hprev
+      · have := I.fresh h2
+        simp only [List.map_append, List.map_cons, List.map_nil] at this
+        have hl : level' = [] := by
+          have := congrArg List.length this
+          simp only [List.length_append, List.length_map, List.length_cons, List.length_nil] at this
+          exact List.eq_nil_of_length_eq_zero (by omega)
+        subst hl
+        simp only [List.nil_append, List.mem_singleton] at he'
+        subst he'
+        exact hsp hprev.symm
+  rcases SO.cases with ⟨h1, h2, h3⟩ | ⟨h1, h2, h3, h4⟩ | ⟨h1, h2, h3⟩
+  · rw [h3, if_pos rfl, List.countP_eq_zero] at hdeg
+    have := hdeg e.atom ha
+    rcases hord with h | h
+    · rw [h, h1]
+    · simp [h] at this
+  · rw [h3] at hdeg
+    simp only [Bool.false_eq_true, if_false] at hdeg
+    rw [h1]
+    have hndn := D.nodup c.start
+    match hnb : nb c c.start, h4, hndn, ha, hf0, hdeg with
+    | [u, v], _, hnn, ha, hf0, hdeg =>
+      simp only [List.mem_cons, List.not_mem_nil, or_false] at ha hf0
+      simp only [List.countP_cons, List.countP_nil] at hdeg
+      rw [h2] at hfi
+      rcases ha with ha | ha <;> rcases hf0 with hf0 | hf0
+      · exact absurd (ha.trans hf0.symm) hne0
+      · rw [← ha, ← hf0, hfi] at hdeg
+        rcases hord with h | h
+        · simp [h] at hdeg
+        · exact h
+      · rw [← ha, ← hf0, hfi] at hdeg
+        rcases hord with h | h
+        · simp [h] at hdeg
+        · exact h
+      · exact absurd (ha.trans hf0.symm) hne0
+  · rw [h3] at hdeg
+    simp only [Bool.false_eq_true, if_false] at hdeg
+    rw [h1]
+    rcases hord with h | h
+    · exact h
+    · exfalso
+      rw [h2] at hfi
+      have := countP_ge_two (P := fun w => f (ukey c.start w) == 2) ha hf0 hne0 (by simp [h]) (by simp [hfi])
+      omega
+
+/-- the hypotheses of `plan_complete` hold in a state that satisfies the invariant and agrees with a valid form -/
+theorem plan_hyps (D : Dom c) {db0 : List Nat} (SO : StartOK c db0 init) (VF : ValidForm c db0 f)
+    (I : Inv c init (level' ++ [e]) path) (hs : e.atom ≠ c.start)
+    (hL : ∀ e' ∈ level', (e'.bond = 1 ∧ e'.tag = none) ∨ e'.atom = c.start)
+    (hA : Agr f (M (level' ++ [e]) path)) {nbrs : List Nat} (hn : c.rings.lookup e.atom = some nbrs) :
+    nbrs.length ≤ 3 ∧ e.prev ∈ nbrs ∧ (e.bond = 1 ∨ e.bond = 2) ∧
+    (∀ x ∈ forStackOf c e.prev (hashedIn (path ++ [pe e])) nbrs, f (ukey x e.atom) = 1 ∨ f (ukey x e.atom) = 2) ∧
+    (∀ x ∈ forStackOf c e.prev (hashedIn (path ++ [pe e])) nbrs, c.db.contains x = true → f (ukey x e.atom) = 1) ∧
+    ((if e.bond = 2 then 1 else 0) + (if hasLoop c e.prev nbrs = true ∧ loopBond c = 2 then 1 else 0) +
+      (forStackOf c e.prev (hashedIn (path ++ [pe e])) nbrs).countP (fun x => f (ukey x e.atom) == 2) =
+        if c.db.contains e.atom = true then 0 else 1) := by
+  have hel : e ∈ level' ++ [e] := by simp
+  have hV : hashedIn path e.atom = false := by
+    rcases (I.lvl e hel).1 with h | h
+    · exact h
+    · exact absurd h hs
+  have hnb := nb_of_lookup hn
+  have hedge := I.edges _ (mem_M_level (path := path) hel)
+  have hP : e.prev ∈ nbrs := hnb ▸ D.sym _ _ hedge.1
+  have hne : nb c e.atom ≠ [] := by rw [hnb]; exact List.ne_nil_of_mem hP
+  have hdeg := D.deg _ hne
+  rw [hnb] at hdeg
+  have hN : nbrs.Nodup := hnb ▸ D.nodup e.atom
+  refine ⟨hdeg.2, hP, hedge.2, ?_, ?_, ?_⟩
+  · intro x hx
+    have := (mem_forStackOf hx).1
+    rw [ukey_comm]
+    exact VF.ord e.atom x (hnb ▸ this)
+  · intro x hx hdb
+    obtain ⟨x1, -, x3, -⟩ := mem_forStackOf hx
+    have hxa : e.atom ∈ nb c x := D.sym _ _ (hnb ▸ x1)
+    have hd := VF.deg x (List.ne_nil_of_mem hxa)
+    rw [← SO.other x x3, hdb, if_pos rfl, List.countP_eq_zero] at hd
+    have := hd e.atom hxa
+    rcases VF.ord x e.atom hxa with h | h
+    · exact h
+    · simp [h] at this
+  · -- split the double bonds at the atom according to the kind of neighbour
+    have hd := VF.deg e.atom hne
+    rw [hnb, ← SO.other e.atom hs, partition_countP c e.prev (hashedIn (path ++ [pe e]))] at hd
+    have hclos : (closuresOf c e.prev (hashedIn (path ++ [pe e])) nbrs).countP
+        (fun w => f (ukey e.atom w) == 2) = 0 := by
+      rw [List.countP_eq_zero]
+      intro x hx
+      have := closure_single D I SO.prev hV hs hL hA (hnb ▸ hx)
+      rw [ukey_comm] at this
+      simp [this]
+    have hprev : nbrs.countP (fun x => (f (ukey e.atom x) == 2) && x == e.prev) = if e.bond = 2 then 1 else 0 := by
+      rw [countP_at hN _ _ e.prev (fun x h => by simpa using h)]
+      have hb : e.bond = f (ukey e.atom e.prev) := hA (pe e) (mem_M_level hel)
+      simp [hP, hb]
+    have hstart : nbrs.countP (fun x => (f (ukey e.atom x) == 2) && (x != e.prev && x == c.start)) =
+        if hasLoop c e.prev nbrs = true ∧ loopBond c = 2 then 1 else 0 := by
+      rw [countP_at hN _ _ c.start (fun x h => by
+        simp only [Bool.and_eq_true, bne_iff_ne, ne_eq, beq_iff_eq] at h; exact h.2)]
+      have hloop : hasLoop c e.prev nbrs = true ↔ (c.start ∈ nbrs ∧ c.start ≠ e.prev) := by
+        simp only [hasLoop, Bool.and_eq_true, bne_iff_ne, ne_eq, List.contains_iff_mem, D.nz, not_false_eq_true,
+          and_true]
+        exact ⟨fun h => ⟨h.2, h.1⟩, fun h => ⟨h.2, h.1⟩⟩
+      by_cases hl : c.start ∈ nbrs ∧ c.start ≠ e.prev
+      · have hse := start_edge D SO VF I hV hA (hnb ▸ hl.1) hl.2
+        rw [ukey_comm] at hse
+        simp [hloop.2 hl, hl.1, hl.2, hse]
+      · have hl' : ¬ (hasLoop c e.prev nbrs = true) := fun h => hl (hloop.1 h)
+        have : ¬ (c.start ∈ nbrs ∧ (f (ukey e.atom c.start) == 2) = true ∧
+            (c.start != e.prev && c.start == c.start) = true) := by
+          intro h
+          simp only [Bool.and_eq_true, bne_iff_ne, ne_eq, beq_self_eq_true, and_true] at h
+          exact hl ⟨h.1, h.2.2⟩
+        rw [if_neg this]
+        simp [hl']
+    have hfs : (forStackOf c e.prev (hashedIn (path ++ [pe e])) nbrs).countP (fun w => f (ukey e.atom w) == 2) =
+        (forStackOf c e.prev (hashedIn (path ++ [pe e])) nbrs).countP (fun x => f (ukey x e.atom) == 2) := by
+      apply List.countP_congr
+      intro x _
+      rw [ukey_comm]
+    rw [hclos, hprev, hstart, hfs] at hd
+    omega
+
+end complete
+
 end ChythonModel.Proofs.C05S
